@@ -20,9 +20,11 @@ StartEpisode ==
            G == MkG(P)
            (* lexeme ids are 0-based in the grammar; L is indexed by id *)
            L == [i \in 0..(Len(Rec[l].lex.lexemes) - 1) |-> MkLexeme(Rec[l].lex.lexemes[i + 1])]
-       IN  /\ gx' = [G |-> G, L |-> L, start |-> start, reduced |-> Reduced(P, start),
+           (* `%ignore`: the id of the ignored lexeme (the last one of the list), or NoSkip *)
+           skip == IF "skip" \in DOMAIN Rec[l].lex THEN Rec[l].lex.skip ELSE NoSkip
+       IN  /\ gx' = [G |-> G, L |-> L, start |-> start, skip |-> skip, reduced |-> Reduced(P, start),
                      sane |-> \A i \in DOMAIN L : L[i].rx \in L[i].live /\ ~R!Nullable(L[i].rx)]
-           /\ ch' = (<<>> :> StartLex(L, Chart0(G, start)))
+           /\ ch' = (<<>> :> StartLexS(L, Chart0(G, start), skip))
 
 Voc(c) == Rec[ini].cfgs[c + 1]
 TokBytes(c, t) == Voc(c).tok[t + 1]
@@ -33,14 +35,14 @@ HistBytes(c, h) ==
     IF h = <<>> THEN <<>>
     ELSE (IF IsSpecial(c, Head(h)) THEN <<>> ELSE TokBytes(c, Head(h))) \o HistBytes(c, Tail(h))
 
-Push(st, w) == StepBytes(gx.G, gx.L, st, w)
+Push(st, w) == StepBytesS(gx.G, gx.L, st, w, gx.skip)
 StateOf(hb) ==
     IF hb \in DOMAIN ch THEN ch[hb]
     ELSE LET ks == {k \in 0..Len(hb) : SubSeq(hb, 1, k) \in DOMAIN ch}
              k == CHOOSE x \in ks : \A y \in ks : y <= x
          IN  Push(ch[SubSeq(hb, 1, k)], SubSeq(hb, k + 1, Len(hb)))
 
-IsAcc(st) == LexAccepting(gx.G, gx.L, st, gx.start)
+IsAcc(st) == LexAcceptingS(gx.G, gx.L, st, gx.start, gx.skip)
 Allowed(c, st, t) ==
     IF t = Voc(c).eos THEN IsAcc(st)
     ELSE ~IsSpecial(c, t) /\ TokBytes(c, t) # <<>> /\ ~Push(st, TokBytes(c, t)).dead
